@@ -76,12 +76,22 @@ func c17Pair(seed uint64, n int) (*lib.Pair, []string) {
 	kinds := []string{"patched", "copy", "fresh", "empty", "renamed", "patched"}
 	r.Shuffle(len(kinds), func(i, j int) { kinds[i], kinds[j] = kinds[j], kinds[i] })
 	var ks []string
+	// every patched file of the pair may get exactly the same old size (with different bytes): anything that is
+	// remembered from one old file to the next by size alone shows when only some of them are selected
+	sameSize := int64(0)
+	if r.Bool() {
+		sameSize = int64(r.Range(3, 9))*lib.BS + int64(r.Intn(5000))
+	}
 	for i := 0; i < n; i++ {
 		k := kinds[i%len(kinds)]
 		name := fmt.Sprintf("f%02d.bin", i)
 		switch k {
 		case "patched": // rsync data + ranges; bsdiff in the optimized variant
-			d := lib.RandomBytes(int64(r.Range(3, 9))*lib.BS+int64(r.Intn(5000)), r.Uint64())
+			sz := int64(r.Range(3, 9))*lib.BS + int64(r.Intn(5000))
+			if sameSize > 0 {
+				sz = sameSize
+			}
+			d := lib.RandomBytes(sz, r.Uint64())
 			nd := append([]byte(nil), d...)
 			for e := 0; e < 3; e++ {
 				off := r.Intn(len(nd) - 200)
